@@ -100,10 +100,15 @@ def reset_initial_conditions(
 
     # Transpiration
     InitCond.tr_ratio = 1
+    # Evaporation and transpiration demand of the previous day (read by the irrigation
+    # depletion estimate on the first day of the season)
+    InitCond.t_pot = 0
+    InitCond.e_pot = 0
 
     # crop growth
     InitCond.r_cor = 1
 
+    InitCond.cc0_adj = crop.CC0
     InitCond.canopy_cover = 0
     InitCond.canopy_cover_adj = 0
     InitCond.canopy_cover_ns = 0
